@@ -416,7 +416,9 @@ def evaluate_overlap(case, r):
                 return h[4]
         return c["before"][0]
     grace_fault = (r.det.n_fault_clock_jump > 0 or bool((case.get("sched") or {}).get("oversleep"))
-                   or any(len(d) > 2 and d[2] and d[2] >= 0.9 for d in r.det.decisions))
+                   or sum(d[2] for d in r.det.decisions if len(d) > 2 and d[2]) >= 0.9)
+    # (stalls add up: two stalls of half a second inside one command exhaust a
+    # one-second grace period just like a single long one)
     if nested_bad and not grace_fault:
         # (with stalls of more than a second the nested simulator's own grace
         # periods expire: not judged)
